@@ -893,7 +893,117 @@ func gateScenarios(c *vh.Ctx, active bool) {
 			return acts, e, nil
 		}}
 	}
+	// INBOUND data while the state is NotCONNECTED and the socket still open: the supervisor is held at
+	// the start of its reaction (react seam) right after it stored NotConnected — voluntary Close from
+	// Selected, or T7 expiry from NotSelected — and the peer writes data primaries (W and non-W) in
+	// that window. Each must be answered Reject(4) echoing its header and never be delivered.
+	mkInNC := func(cause string) sn {
+		return sn{"inbound-notconnected/" + cause, func() ([]string, *sc.Env, error) {
+			var extra []hsms.ConnOption
+			if cause == "t7" {
+				extra = append(extra, hsms.WithT7(150*time.Millisecond))
+			}
+			e, err := sc.NewEnv(false, 1, t3, t6, extra...)
+			if err != nil {
+				return nil, nil, err
+			}
+			if err := e.Open(false); err != nil {
+				return nil, e, err
+			}
+			p, err := e.Connect(3 * time.Second)
+			if err != nil {
+				return nil, e, err
+			}
+			defer p.Close()
+			acts := []string{"N", "U"}
+			if err := e.WaitNotified(hsms.NotSelectedState, 1, 3*time.Second); err != nil {
+				return nil, e, err
+			}
+			inReact := make(chan struct{}, 1)
+			releaseReact := make(chan struct{})
+			hold := func(prev, next hsms.ConnState) {
+				if next == hsms.NotConnectedState {
+					select {
+					case inReact <- struct{}{}:
+					default:
+					}
+					select {
+					case <-releaseReact:
+					case <-time.After(10 * time.Second):
+					}
+				}
+			}
+			closeDone := make(chan struct{})
+			if cause == "close" {
+				if err := e.Select(p, 7); err != nil {
+					return nil, e, err
+				}
+				if err := e.WaitNotified(hsms.SelectedState, 1, 3*time.Second); err != nil {
+					return nil, e, err
+				}
+				acts = append(acts, "P "+sc.SelectReq(e.Sid, 7).M(), "D", "Q1")
+				if !hsms.VerifHookReact(hsmsss.VerifCore(e.Conn), hold) {
+					return nil, e, fmt.Errorf("react seam not available")
+				}
+				e.Down()
+				go func() { _ = e.Conn.Close(); close(closeDone) }()
+			} else {
+				// T7 (150 ms) expires while connected-not-selected
+				if !hsms.VerifHookReact(hsmsss.VerifCore(e.Conn), hold) {
+					return nil, e, fmt.Errorf("react seam not available")
+				}
+			}
+			select {
+			case <-inReact:
+			case <-time.After(5 * time.Second):
+				close(releaseReact)
+				return nil, e, fmt.Errorf("the supervisor did not reach its reaction")
+			}
+			if cause == "t7" {
+				e.Down()
+			}
+			acts = append(acts, "X")
+			recv0 := e.Conn.Metrics().DataMsgRecvCount()
+			what := "inbound-notconnected/" + cause
+			for i, h := range [][2]byte{{0x80 | 3, 1}, {4, 5}} {
+				_, f, err := p.SendData(e.Sid, h[0], h[1], 0xA1000000+uint32(i))
+				if err != nil {
+					close(releaseReact)
+					return nil, e, err
+				}
+				acts = append(acts, "P "+f.M(), "D", "Q1")
+				rj, ok := p.Wait(1500*time.Millisecond, func(g sc.Frame) bool { return g.ST == 7 }, nil)
+				log := sc.Render(e.Rec.Entries())
+				if !ok {
+					cx.Fail("C07: a data frame received while the state was NotConnected ("+cause+", socket still open) was not answered with a Reject", what+" | "+log)
+				} else if rj.B3 != 4 || rj.Sid != f.Sid || rj.Sys != f.Sys || rj.PT != 0 || len(rj.Body) != 0 {
+					cx.Fail("C07: the reject for a data frame received while NotConnected ("+cause+") does not carry reason 4 / the session id / the system bytes", what+" | "+log)
+				}
+			}
+			log := sc.Render(e.Rec.Entries())
+			select {
+			case n := <-e.HSig:
+				cx.Fail(fmt.Sprintf("C07: data frame %d received while the state was NotConnected (%s, socket still open) was delivered to a handler", n, cause), what+" | "+log)
+			default:
+			}
+			if d := e.Conn.Metrics().DataMsgRecvCount() - recv0; d != 0 {
+				cx.Fail(fmt.Sprintf("C07: %d data frames received while NotConnected (%s) were counted as received (routed)", d, cause), what+" | "+log)
+			}
+			e.SnapshotLog = log
+			e.Down()
+			close(releaseReact)
+			if cause == "close" {
+				select {
+				case <-closeDone:
+				case <-time.After(10 * time.Second):
+					return nil, e, fmt.Errorf("Close did not return")
+				}
+			}
+			return acts, e, nil
+		}}
+	}
 	var list []sn
+	list = append(list, mkInNC("close"), mkInNC("t7"))
 	for _, ep := range sc.EntryPoints {
 		list = append(list, mk(ep.Name, false), mk(ep.Name, true), mkB2(ep.Name), mkOrphan(ep.Name))
 		for _, cause := range []string{"peer-close", "peer-separate", "close"} {
